@@ -26,6 +26,10 @@ type Stats struct {
 	Violations []Found
 	FirstTrace []string
 	Level1     int
+	// Divergences counts executions whose prefix could not be replayed (nondeterminism the harness does
+	// not own). A run with divergences and no violation ends HARNESS-UNSOUND (core.Finish); a violating
+	// execution is reported regardless, because it is a real execution of the code under test.
+	Divergences int64
 }
 
 // Found is one violating execution.
@@ -67,8 +71,10 @@ func (e *Explorer) runOne(prefix []int) *Exec {
 		os.Exit(2)
 	}
 	if len(x.Points) < len(prefix) {
-		fmt.Printf("HARNESS-UNSOUND: replay divergence in scenario %s: the execution ended after %d branch points but the prefix has %d (nondeterminism not owned by the harness)\n", e.Sc.Name, len(x.Points), len(prefix))
-		os.Exit(2)
+		x.Diverged = true
+	}
+	if x.Diverged {
+		e.st.Divergences++
 	}
 	return x
 }
@@ -151,6 +157,9 @@ func (e *Explorer) dfs(prefix []int) {
 	}
 	x := e.runOne(prefix)
 	e.check(x, true)
+	if x.Diverged {
+		return // where the execution went after the divergence is unknown: do not branch from it
+	}
 	for _, ch := range e.children(x, len(prefix)) {
 		e.dfs(ch)
 		if e.stop {
@@ -176,9 +185,10 @@ func (e *Explorer) Explore() *Stats {
 	// determinism self-test on the default schedule
 	root := e.runOne(nil)
 	again := Run(root.Choices, true, e.Sc.Body)
-	if strings.Join(root.Obs, "\x00") != strings.Join(again.Obs, "\x00") || len(root.Points) != len(again.Points) {
-		fmt.Printf("HARNESS-UNSOUND: scenario %s is not deterministic under replay:\n%v\nvs\n%v\n", e.Sc.Name, root.Obs, again.Obs)
-		os.Exit(2)
+	if strings.Join(root.Obs, "\x00") != strings.Join(again.Obs, "\x00") || len(root.Points) != len(again.Points) || again.Diverged {
+		fmt.Printf("NONDETERMINISM: scenario %s is not deterministic under replay:\n%v\nvs\n%v\n", e.Sc.Name, root.Obs, again.Obs)
+		e.st.Divergences++
+		e.check(again, false)
 	}
 	e.st.FirstTrace = root.Obs
 	mine := e.Shard == 0
@@ -192,6 +202,9 @@ func (e *Explorer) Explore() *Stats {
 		}
 		x1 := e.runOne(p1)
 		e.check(x1, mine)
+		if x1.Diverged {
+			continue
+		}
 		for _, p2 := range e.children(x1, len(p1)) {
 			if idx%e.NShards == e.Shard {
 				e.dfs(p2)
